@@ -241,6 +241,34 @@ pub mod carr {
             self.items.insert(i, (k, v));
             None
         }
+        pub fn into_keys(self) -> impl Iterator<Item = KS> {
+            self.items.into_iter().map(|(k, _)| k)
+        }
+        pub fn into_values(self) -> impl Iterator<Item = V> {
+            self.items.into_iter().map(|(_, v)| v)
+        }
+        pub fn values(&self) -> impl Iterator<Item = &V> {
+            self.items.iter().map(|(_, v)| v)
+        }
+        pub fn len(&self) -> usize {
+            self.items.len()
+        }
+        pub fn is_empty(&self) -> bool {
+            self.items.is_empty()
+        }
+        pub fn contains_key(&self, k: &KS) -> bool {
+            self.items.iter().any(|(x, _)| *x == *k)
+        }
+        pub fn get(&self, k: &KS) -> Option<&V> {
+            let mut i = 0;
+            while i < self.items.len() {
+                if self.items[i].0 == *k {
+                    return Some(&self.items[i].1);
+                }
+                i += 1;
+            }
+            None
+        }
         pub fn get_mut(&mut self, k: &str) -> Option<&mut V> {
             let id = id_of(k);
             let mut i = 0;
@@ -251,6 +279,18 @@ pub mod carr {
                 i += 1;
             }
             None
+        }
+    }
+    impl<V> Default for BTreeMap<KS, V> {
+        fn default() -> Self {
+            BTreeMap::new()
+        }
+    }
+    impl<V> IntoIterator for BTreeMap<KS, V> {
+        type Item = (KS, V);
+        type IntoIter = KIntoIter<(KS, V)>;
+        fn into_iter(self) -> Self::IntoIter {
+            self.items.into_iter()
         }
     }
     /// small set in insertion order
